@@ -67,6 +67,25 @@ theorem faceHas_of_allZ (lat : Lattice) (s loc : Loc) (h : ∀ e ∈ lat.stabOp 
     rfl
   rw [this, Bool.and_false]
 
+/-- on a lattice without seam (`code.id != 'RotatedToric3DCode'`) `_wrap` is the identity -/
+theorem wrapRot_noSeam (lat : Lattice) (h : lat.rotSeam = false) (l : Loc) : wrapRot lat l = l := by
+  simp [wrapRot, h]
+
+theorem flipFacesRot_noSeam (lat : Lattice) (h : lat.rotSeam = false) (edge : Loc) :
+    flipFacesRot lat edge = (rawFacesRot edge).map fun fs => fs.filter lat.isStabFace := by
+  unfold flipFacesRot
+  have : wrapRot lat = id := by funext l; exact wrapRot_noSeam lat h l
+  rw [this]
+  simp
+
+theorem sweepFacesRot_noSeam (lat : Lattice) (h : lat.rotSeam = false) (v : Loc) (sd : SweepDir) :
+    sweepFacesRot lat v sd = oldSweepFacesRot v sd := by
+  simp [sweepFacesRot, wrapRot_noSeam lat h]
+
+theorem sweepEdgesRot_noSeam (lat : Lattice) (h : lat.rotSeam = false) (v : Loc) (sd : SweepDir) :
+    sweepEdgesRot lat v sd = oldSweepEdgesRot v sd := by
+  simp [sweepEdgesRot, wrapRot_noSeam lat h]
+
 /-! ### membership in the coordinate lists -/
 
 theorem mem_rotPlanarQubits (Lx Ly Lz : Nat) (x y z : Int) :
